@@ -83,12 +83,21 @@ def replay(item):
     before_chunks = {k: v for k, v in chunks(canon_before).items() if k not in named}
     obs = []
     p = os.path.join(_st["dir"], "t%d.oct.md" % os.getpid())
-    for route, merge in (("tool_dot", False), ("tool_merge", True), ("cli", False), ("tool_mutations", False)):
+    routes = [("tool_dot", False), ("tool_merge", True), ("cli", False), ("tool_mutations", False)]
+    if len(case["reqs"]) >= 2 and len({r["key"] for r in case["reqs"]}) == len(case["reqs"]):
+        routes.append(("tool_one_request", False))          # the whole sequence as ONE changes object (keys in request order)
+    for route, merge in routes:
         with open(p, "w", encoding="utf-8", newline="") as f:
             f.write(text)
         ok = True
         try:
-            for ch in pyreq(case["reqs"], merge):
+            chs = pyreq(case["reqs"], merge)
+            if route == "tool_one_request":
+                one = {}
+                for ch in chs:
+                    one.update(ch)
+                chs = [one]
+            for ch in chs:
                 if route == "cli":
                     rr = CliRunner().invoke(cli, ["write", p, "--changes", json.dumps(ch)], catch_exceptions=True)
                     ok = ok and rr.exit_code == 0
@@ -171,6 +180,9 @@ def run(ctx):
                 ("two_reqs", dict(base, MaxItems=2, PoolA={"w"}, PoolB={"l3"}, Feat={"dupkey"}, MaxReqs=2, ReqVals={"two", "l3"}, MetaKeys={"TYPE"})),
                 ("meta", dict(base, MaxItems=1, PoolA={"w"}, HeaderMode="all", HeaderMaxBody=1, Feat=set(), ReqKeys={"A"}, ReqVals={"w", "l3", "int"},
                               MetaKeys={"TYPE", "VERSION", "NEST", "NEWF"}))]
+        # keys whose values the emitter treats specially (always quoted when they are strings)
+        runs.append(("pattern_keys", dict(base, MaxItems=1, MaxDepth=0, PoolA={"w"}, Feat=set(), MaxReqs=1, ReqKeys={"PATTERN", "REGEX"},
+                                          ReqVals={"w", "int", "t", "l0", "l3"}, MetaKeys={"TYPE"})))
         if ctx.thorough:
             runs.append(("three_reqs", dict(base, MaxItems=2, PoolA={"w"}, PoolB={"l3"}, Feat={"dupkey"}, MaxReqs=3, ReqVals={"two"}, MetaKeys={"TYPE"})))
             runs.append(("wide", dict(base, MaxItems=3, MaxDepth=2, PoolA={"w", "l3", "z1"}, PoolB={"int", "two", "lmap"}, PoolC={"w"},
